@@ -191,6 +191,14 @@ func genReg(r *hx.Rand, prefix string, hostile bool) Reg {
 			g.Tags = append(g.Tags, r.Pick(okPlain))
 		}
 	}
+	// now and then: a tag twice (two equal commands in the text), a very long tag (the scanner of route.Parse
+	// reads lines below 64 KiB, ParseAliases has no limit)
+	if len(g.Tags) > 0 && r.Chance(1, 10) {
+		g.Tags = append(g.Tags, g.Tags[r.Intn(len(g.Tags))])
+	}
+	if hostile && r.Chance(1, 150) {
+		g.Tags = append(g.Tags, strings.Repeat(r.Pick([]string{"x", "é", "ab"}), []int{300, 32700, 65400, 65600}[r.Intn(4)]))
+	}
 	// shuffle
 	for i := len(g.Tags) - 1; i > 0; i-- {
 		j := r.Intn(i + 1)
